@@ -76,6 +76,8 @@ def api(call, fn, *a, **kw):
 # run environment (set by the runner from scenario['_env']; replayed with the scenario)
 #   decor: seed -> the specification texts are decorated in ways that must not change their meaning: line comments after
 #          sub-specifications, block comments between tokens, constants and variables (also) declared inside the text
+#   omit_idle: True -> in dense-time online update() calls a variable without new samples is left out instead of being
+#          passed with an empty batch
 #   knobs: seed -> every upper-case integer tuning constant (>= 16) found in the rtamt modules (cache sizes, scan limits,
 #          pending-queue caps ...) is set to a small value for the run, so that slow paths and evictions run on small inputs
 
@@ -323,6 +325,16 @@ def ct_evaluate(spec, signals, order=None):
 
 def ct_update(spec, batches, order=None):
     args = [[v, [[s[0], _wrap(spec, v, s[1])] for s in batches[v]]] for v in (order or sorted(batches))]
+    if ENV.get('omit_idle'):
+        # a sensor without new samples is simply not mentioned in this call - once it has been mentioned in an earlier one
+        # (a variable that was never supplied at all is not a supported way of calling update())
+        seen = getattr(spec, '_verif_seen', None)
+        if seen is None:
+            seen = spec._verif_seen = set()
+        keep = [a for a in args if a[1] or a[0] not in seen]
+        if keep:
+            args = keep
+        seen.update(a[0] for a in args)
     return api('update', spec.update, *args)
 
 
